@@ -50,6 +50,7 @@ func c07Session(pos map[int]string) *saml.Session {
 	s.Index = get(11, "session-index-1")
 	s.EduPersonPrincipalName = get(12, "alice-principal@idm.example.com") // set next to a different UserEmail
 	s.SubjectID = get(13, "subject-0001@example.com")
+	s.NameIDFormat = get(14, "") // "" = the IdP's default (transient)
 	return s
 }
 
@@ -366,6 +367,9 @@ func runC07(c *core.Ctx) {
 		t.Compared()
 		var charClass string
 		for i, v := range pos {
+			if i >= len(c07Positions) {
+				continue // (NameIDFormat: not one of the string positions)
+			}
 			charClass += c07Positions[i] + ":" + cls(v) + " "
 		}
 		t.Input("session", fmt.Sprintf("%+q", pos))
@@ -388,6 +392,9 @@ func runC07(c *core.Ctx) {
 		if gotName != sess.NameID {
 			fk := "C07/nameid-altered" + crClass(pos)
 			t.Fail(fk, "NameID %+q came back as %+q (%s)", sess.NameID, gotName, cf)
+		}
+		if sess.NameIDFormat != "" && got.Subject != nil && got.Subject.NameID != nil && got.Subject.NameID.Format != sess.NameIDFormat {
+			t.Fail("C07/nameid-format-altered", "NameID format %q came back as %q (%s)", sess.NameIDFormat, got.Subject.NameID.Format, cf)
 		}
 		sl, gl := attrList(sent), attrList(got)
 		if strings.Join(sl, "\n") != strings.Join(gl, "\n") {
@@ -688,7 +695,13 @@ func runC07(c *core.Ctx) {
 			cfgs = append(cfgs, c07Cfg{enc: enc, entitySet: true, spKey: "sp2048", binding: "redirect", idpKey: "idp1", aged: aged}, c07Cfg{enc: enc, entitySet: true, spKey: "spec256", binding: "post", signReq: true, idpKey: "idpec", idpMethod: dsig.ECDSASHA256SignatureMethod, aged: aged})
 		}
 	}
-	probes := []map[int]string{{}, {0: "a&b<c>\"d'", 8: " lead and trail ", 7: "\n"}, {0: "\U0001F600é", 3: "]]><!--", 9: "urn:x:&<>"}}
+	probes := []map[int]string{{}, {0: "a&b<c>\"d'", 8: " lead and trail ", 7: "\n"}, {0: "\U0001F600é", 3: "]]><!--", 9: "urn:x:&<>"},
+		// name identifiers in each format, spelt with capitals: the spelling is the IdP's user's, not the IdP's to normalise
+		{0: "Alice.Liddell@Example.COM", 14: "urn:oasis:names:tc:SAML:1.1:nameid-format:emailAddress", 2: "Alice.Liddell@Example.COM"},
+		{0: "MiXeD-Case-Opaque-ID", 14: "urn:oasis:names:tc:SAML:2.0:nameid-format:persistent"},
+		{0: "CN=Alice Liddell,OU=Wonderland,O=Example,C=GB", 14: "urn:oasis:names:tc:SAML:1.1:nameid-format:X509SubjectName"},
+		{0: "EXAMPLE\\Alice", 14: "urn:oasis:names:tc:SAML:1.1:nameid-format:WindowsDomainQualifiedName"},
+		{0: "Ünï@Ünï.Example", 14: "urn:oasis:names:tc:SAML:1.1:nameid-format:unspecified"}}
 	for _, cf := range cfgs {
 		for pi, pr := range probes {
 			cf, pr, pi := cf, pr, pi
